@@ -87,6 +87,7 @@ def gen_case(rng):
     from scipy.special import ndtri
     shp = gen.shape(rng)
     alpha = rng.choice([0.01, 0.05, 10 ** rng.uniform(-10, -0.0005),
+                        10 ** rng.uniform(-40, -10),
                         10 ** rng.uniform(-3, -0.0005), rng.uniform(0.5,
                                                                     0.999)])
     ndf = rng.choice([None, None, int(10 ** rng.uniform(0, 6)),
